@@ -233,11 +233,90 @@ def gen_sym(ctx):
                 j = add(ty, A, "2x2-near-identity:scaled", scales(ty)[0])
                 if j is not None:
                     out[j]["base"] = base
+    # ---- structured stream: exact structural zeros, decoupled coordinates, all symmetric permutations P A P^T
+    # (which row pair eig0/eig1 of the 3x3 closed form must pick depends on WHERE the zeros are)
+    import itertools
+    def eig2(a, b, c):                     # eigenvalues of [[a,b],[b,c]] (float, only used to place the third diagonal entry)
+        p, r = 0.5 * (a + c), math.hypot(0.5 * (a - c), b)
+        return p - r, p + r
+    def permuted(A):
+        n = len(A)
+        perms = list(itertools.permutations(range(n))) if n <= 3 else [tuple(range(n))] + [tuple(rng.sample(range(n), n)) for _ in range(3 if ctx.quick else 12)]
+        seen = set()
+        for pm in perms:
+            B = [[A[pm[i]][pm[j]] for j in range(n)] for i in range(n)]
+            key = tuple(x for r in B for x in r)
+            if key not in seen:
+                seen.add(key); yield B
+    def add_all(ty, A, kind):
+        for B in permuted(A):
+            base = add(ty, B, kind)
+            for k in scales(ty)[: (1 if ctx.quick else 2)]:
+                j = add(ty, B, kind + ":scaled", k)
+                if j is not None and base is not None:
+                    out[j]["base"] = base
+    reps = 1 if ctx.quick else 6
+    for ty in ("d", "f"):
+        ival = lambda: float(rng.choice([-5, -3, -2, -1, 1, 2, 3, 4, 5]))
+        rval = lambda: rng.uniform(0.1, 2) * rng.choice([1, -1])
+        for rep in range(reps):
+            for val, vk in ((ival, "int"), (rval, "rand")):
+                # 3x3: every sparsity pattern of the off-diagonal entries (01, 02, 12)
+                for pat in itertools.product([0, 1], repeat=3):
+                    o01, o02, o12 = (val() if z else 0.0 for z in pat)
+                    diags = [[val(), val(), val()]]
+                    if sum(pat) == 1:
+                        # one coordinate decouples: its diagonal entry below / at / between / above the spectrum of the 2x2 block
+                        i, j = [(0, 1), (0, 2), (1, 2)][pat.index(1)]
+                        kdec = 3 - i - j
+                        a, c = val(), val()
+                        b = o01 + o02 + o12
+                        lo, hi = eig2(a, b, c)
+                        diags = []
+                        for m in (lo - abs(val()) - 1, hi + abs(val()) + 1, 0.5 * (lo + hi), math.floor(lo) - 4.0, math.ceil(hi) + 4.0, a, c):
+                            dg = [0.0, 0.0, 0.0]; dg[i] = a; dg[j] = c; dg[kdec] = m
+                            diags.append(dg)
+                    elif sum(pat) == 0:
+                        diags = [[val(), val(), val()], [1.0, 1.0, 2.0], [2.0, 2.0, 2.0]]
+                    for dg in diags:
+                        A = [[dg[0], o01, o02], [o01, dg[1], o12], [o02, o12, dg[2]]]
+                        add_all(ty, A, "struct3:pattern%d%d%d:%s" % (pat + (vk,)))
+                # two equal rows/columns; rank one / rank two
+                a, b, c = val(), val(), val()
+                add_all(ty, [[a, a, b], [a, a, b], [b, b, c]], "struct3:equal-rows:" + vk)
+                u = [ival(), ival(), ival()]; v = [ival(), 0.0, ival()]
+                add_all(ty, [[u[i] * u[j] for j in range(3)] for i in range(3)], "struct3:rank1")
+                add_all(ty, [[u[i] * u[j] + v[i] * v[j] for j in range(3)] for i in range(3)], "struct3:rank2")
+                add_all(ty, [[u[i] * u[j] - v[i] * v[j] for j in range(3)] for i in range(3)], "struct3:rank2-indefinite")
+                # 2x2: b = 0, a = d, tiny b
+                for A in ([[val(), 0.0], [0.0, val()]], [[a, b], [b, a]], [[a, 0.0], [0.0, a]], [[a, 1e-9 * b], [1e-9 * b, c]],
+                          [[a, 1e-18 * b], [1e-18 * b, a]], [[0.0, b], [b, 0.0]], [[a, b], [b, 0.0]]):
+                    add_all(ty, A, "struct2:" + vk)
+                # n = 4..6 (LAPACK path): block diagonal 2+2, 1+3, 2+3, 3+3, 1+2+3, arrow, tridiagonal; random symmetric permutations
+                def blockdiag(sizes):
+                    n = sum(sizes); A = [[0.0] * n for _ in range(n)]; o = 0
+                    for sz in sizes:
+                        for i in range(sz):
+                            for j in range(i, sz):
+                                A[o + i][o + j] = A[o + j][o + i] = val()
+                        o += sz
+                    return A
+                for sizes in ((2, 2), (1, 3), (3, 1), (2, 3), (1, 4), (3, 3), (1, 2, 3), (2, 2, 2), (1, 1, 2)):
+                    add_all(ty, blockdiag(sizes), "structN:block%s:%s" % ("+".join(map(str, sizes)), vk))
+                for n in (4, 5, 6):
+                    arrow = [[(val() if (i == j or i == 0 or j == 0) else 0.0) for j in range(n)] for i in range(n)]
+                    tri = [[(val() if abs(i - j) <= 1 else 0.0) for j in range(n)] for i in range(n)]
+                    for A in (arrow, tri):
+                        for i in range(n):
+                            for j in range(i):
+                                A[i][j] = A[j][i]
+                        add_all(ty, A, "structN:arrow/tridiagonal:" + vk)
     # corpus: the DESIGN section 5 witnesses and the pinned tests' matrices
     for ty in ("d", "f"):
         for A in ([[2e-20, 1e-20], [1e-20, 2e-20]], [[2.0, 1.0], [1.0, 2.0]], [[1.0, 0.0], [0.0, 1.0]], [[0.0, 1.0], [1.0, 0.0]],
                   [[1.0, 0.0], [0.0, 0.0]], [[0.0, 0.0], [0.0, 1.0]], [[1.01, 0.0], [0.0, 1.0]], [[0.0, 0.0], [0.0, 0.0]],
                   [[1.0, 1e-9], [1e-9, 1.0]],
+                  [[1.0, 0, 2.0], [0, -5.0, 0], [2.0, 0, 3.0]], [[3.0, 0, 2.0], [0, 9.0, 0], [2.0, 0, 1.0]],
                   [[1.0, 0, 0], [0, 1.0, 0], [0, 0, 1.0]], [[0, 1.0, 0], [1.0, 0, 0], [0, 0, 5.0]], [[3.0, -2.0, 0], [-2.0, 3.0, 0], [0, 0, 5.0]],
                   [[0, 0, 0], [0, 1.0, 1.0], [0, 1.0, 1.0]], [[0, 0, 0], [0, 1.0, 0], [0, 0, 0]], [[3.0, 0, 0], [0, 2.0, 0], [0, 0, 4.0]],
                   [[0.0] * 3] * 3):
